@@ -36,6 +36,25 @@ def run(ctx):
     picked.sort(key=lambda b: (not (shape(b)[1] == shape(b)[2] and len(shape(b)[1]) == 1), shape(b)))
     rest = [b for b in diverse(g2.lines, n2, steps_of=lambda b: b["ops"], seed=ctx.seed) if b not in picked]
     scheds += (picked + rest)[:n2]
+    # outages during which only one kind of node point is written (the other content of the node stays as it is)
+    g3 = vlib.run_tlc(ctx.sc, "Gen_Sync", "Gen_Sync_pt.cfg", collect_json=True, workers=1, timeout=3000)   # all of them (BFS)
+    n3 = 4 if t == "quick" else 40
+    seen3, pick3 = set(), []
+    for b in g3.lines:
+        how = next((o["how"] for o in b["ops"] if o["op"] == "down"), "")
+        k = (how, tuple(sorted({(o["side"], o["id"]) for o in b["ops"] if o["op"] == "write"})))
+        if how != "restart" and k not in seen3:
+            seen3.add(k)
+            pick3.append(b)
+    pick3.sort(key=lambda b: len({o["id"] for o in b["ops"] if o["op"] == "write"}))
+    # always among them: a pair of twin-key points written for the first time on one side (must converge) and
+    # written on both sides (the known finding crc-xor-key-twin)
+    def has(b, how, writes):
+        return (next((o["how"] for o in b["ops"] if o["op"] == "down"), "") == how
+                and sorted((o["side"], o["id"]) for o in b["ops"] if o["op"] == "write") == sorted(writes))
+    must = [b for b in pick3 if has(b, "cut", [("U", "eA:pt"), ("U", "eB:pt")]) or has(b, "disable", [("D", "eB:pt"), ("U", "eB:pt")])
+            or has(b, "disable", [("D", "eA:pt"), ("D", "eB:pt")]) or has(b, "cut", [("D", "eA:pt"), ("U", "eA:pt")])]
+    scheds += (must + [b for b in pick3 if b not in must])[:max(n3, len(must))]
     p = ctx.sc.path("c02.jsonl")
     with open(p, "w") as f:
         for s in scheds:
@@ -79,6 +98,15 @@ def run(ctx):
                     down = False
                 elif down and op["id"].endswith(":tomb") and op["del"]:
                     cls = "deletion-during-outage"
+            # known finding: two points that differ in nothing but the key (node B's "pt" writes) contribute the
+            # same constant to the XOR-of-CRC-32 hash whatever their time and value are (CRC-32 is affine), so
+            # replacing one such pair by another leaves every hash unchanged and catch-up never looks at the node.
+            # Input class: the only identities that differ are such pairs, and both sides already hold a version.
+            if ev.get("ev") == "Checkpoint" and not ev.get("sameNodes") and ev.get("diff"):
+                differs = [i for i in ev["d"] if ev["d"][i] != ev["u"][i]]
+                twin_keys = all(k.startswith("B/v:") for k in ev["diff"])
+                if twin_keys and differs == ["eB:pt"] and ev["d"]["eB:pt"] != 0 and ev["u"]["eB:pt"] != 0:
+                    cls = "crc-xor-key-twin"
             failures.append({"finding": cls,
                              "what": "after the link had been up through catch-up the two instances do not hold the same newest points: %s"
                                      % json.dumps(ev)[:700],
